@@ -200,3 +200,17 @@ def search(key, variant, i):
         if got != want:
             return {'table': w, 'load_returned': got, 'contract_requires': want}
     return None
+
+
+def finding_degenerate_media_raises(i):
+    """C16: Representation.load raises ZeroDivisionError for degenerate media (segment duration estimate or total duration 0)
+    and MediaFile.parse_media_file / IndexMediaFile.get call it without handling the exception: indexing such an upload
+    ends in an unhandled error instead of a reported parse error."""
+    w = _table([(1, 24, 0, None, 0, 0), (4, 600, 0, None, 0, 0),
+                (2, 100, 1, int(i['tfdt']), 1000, 10), (5, 5000, 0, None, 0, 0),
+                (2, 100, 2, int(i['tfdt']), 1000, 10), (5, 5000, 0, None, 0, 0)])
+    try:
+        build('x:Representation.load', '', w)['call']()
+    except ZeroDivisionError as err:
+        return True, f'two fragments with the same decode time {i["tfdt"]}: ZeroDivisionError({err}) out of Representation.load'
+    return False, 'indexed without an exception'
